@@ -150,6 +150,11 @@ def specRun (S : Solver V X W A O Q Y) (sp : Spec V O) :
     let rest := specRun S r.1 cs
     (rest.1, r.2 :: rest.2)
 
+/-- the request stays inside an `nt`-column array -/
+def OpInHorizon (nt : Nat) : Op V → Prop
+  | .send i _ => i < nt
+  | .addon _ => True
+
 /-- a call the documented protocol permits in the given situation: a `send` goes to an existing
 generator, obeys `1 ≤ i ≤ last + 1` (add-on only after a send) for THAT generator's history and
 stays inside its horizon; every other call is always permitted (`finalize()` without a live
@@ -157,7 +162,7 @@ generator is permitted and answers AttributeError) -/
 def Admissible (S : Solver V X W A O Q Y) (sp : Spec V O) : Call V O Q → Prop
   | .send g op =>
       ∃ sg, sp.gens g = some sg ∧ ValidOp (sg.state S) op ∧
-        (match op with | .send i _ => i < sg.nt | .addon _ => True)
+        OpInHorizon sg.nt op
   | _ => True
 
 def AdmissibleAll (S : Solver V X W A O Q Y) : Spec V O → List (Call V O Q) → Prop
